@@ -11,7 +11,7 @@ impl ::vrt::HasName for App { fn name(&self) -> &str { self.name } }
 """
 
 DEFAULT_PROFILE = dict(
-    deps_kinds=["generic_ref"] * 5 + ["impl_ref"] * 3 + ["generic_val", "impl_val", "concrete_ref", "no_deps", "no_deps"],
+    deps_kinds=["generic_ref"] * 5 + ["impl_ref"] * 3 + ["generic_val", "impl_val", "concrete_ref", "concrete_val", "no_deps", "no_deps"],
     max_arity=6,
     forms=["plain"] * 8 + ["mut", "ref", "raw", "wild", "destr", "destr"],
     types=["i32", "i32", "i32", "u8", "bool", "str", "String", "tup", "N", "N2", "S", "opt", "arr", "refi", "mutref"],
@@ -325,7 +325,7 @@ class FnCaseBuilder:
         L.append('    let app = ::entrait::Impl::new(App { tag: %d, name: "nm_%s" });' % (rng.randint(1, 1 << 30), self.cid))
         L.append('    let plain = App { tag: %d, name: "pl_%s" };' % (rng.randint(1, 1 << 30), self.cid))
         L.append('    ::vrt::fact("app_addr", ::vrt::addr(&app)); ::vrt::fact("app_tn", ::vrt::tn(&app)); ::vrt::fact("app_tag", ::vrt::Tag::tag(&app));')
-        L.append('    ::vrt::fact("plain_addr", ::vrt::addr(&plain)); ::vrt::fact("plain_tn", ::vrt::tn(&plain));')
+        L.append('    ::vrt::fact("plain_addr", ::vrt::addr(&plain)); ::vrt::fact("plain_tn", ::vrt::tn(&plain)); ::vrt::fact("plain_tag", ::vrt::Tag::tag(&plain));')
         base = 1
         calls = []
         # generic arguments of the generated trait: per fn, its type params then const params
@@ -346,6 +346,8 @@ class FnCaseBuilder:
                 # direct
                 if f.deps_kind == "no_deps":
                     dargs = e1
+                elif f.by_value() and f.deps_kind.startswith("concrete") and rk == "impl":
+                    dargs = ["*" + recv] + e1
                 elif f.by_value():
                     dargs = [recv] + e1
                 elif f.deps_kind.startswith("concrete") and rk == "impl":
